@@ -337,6 +337,54 @@ func SortedKeys[V any](mp map[string]V) []string {
 // offered by the planner, with generated tuples; the generic generator reaches
 // these shapes only rarely.
 func FamilyWorld(t *rapid.T, o Opts) World {
+	return familyWorld(t, o, rapid.IntRange(0, 7).Draw(t, "family"))
+}
+
+// CycleWorld draws a world from the families whose relations are mutually
+// recursive (6: through a TTU, 7: through usersets); with the few object ids of
+// the generator, cycles in the stored tuples are the common case.
+func CycleWorld(t *rapid.T, o Opts) World {
+	fam := rapid.IntRange(6, 7).Draw(t, "cycleFamily")
+	w := familyWorld(t, o, fam)
+	if len(w.Model.Conds) > 0 || chance(t, "cycleRandomTuples", 25) {
+		return w
+	}
+	// dense links between the few groups, sparse direct grants for one subject:
+	// most answers then depend on derivations that run through the cycles
+	var ts []m.Tuple
+	n := o.MaxIDs
+	for i := 0; i < n; i++ {
+		for j := 0; j < n; j++ {
+			gi, gj := fmt.Sprintf("group:%d", i), fmt.Sprintf("group:%d", j)
+			if fam == 6 {
+				if chance(t, "link", 40) {
+					ts = append(ts, m.Tuple{Object: gi, Relation: "parent", User: gj})
+				}
+				continue
+			}
+			if chance(t, "link01", 30) {
+				ts = append(ts, m.Tuple{Object: gi, Relation: "r0", User: gj + "#r1"})
+			}
+			if chance(t, "link10", 30) {
+				ts = append(ts, m.Tuple{Object: gi, Relation: "r1", User: gj + "#r0"})
+			}
+		}
+	}
+	for i := 0; i < n; i++ {
+		for _, rel := range []string{"r0", "r1", "r2"} {
+			if chance(t, "grant", 15) {
+				ts = append(ts, m.Tuple{Object: fmt.Sprintf("group:%d", i), Relation: rel, User: "user:0"})
+			}
+		}
+	}
+	if len(ts) == 0 {
+		return w
+	}
+	sort.Slice(ts, func(i, j int) bool { return ts[i].Key() < ts[j].Key() })
+	return World{Model: w.Model, Tuples: ts}
+}
+
+func familyWorld(t *rapid.T, o Opts, family int) World {
 	this := func() *m.Rewrite { return &m.Rewrite{Kind: m.This} }
 	user := m.Restriction{Type: "user"}
 	var types []m.TypeDef
@@ -346,7 +394,7 @@ func FamilyWorld(t *rapid.T, o Opts) World {
 	if wild {
 		userRestr = append(userRestr, m.Restriction{Type: "user", Wildcard: true})
 	}
-	switch rapid.IntRange(0, 5).Draw(t, "family") {
+	switch family {
 	case 0: // weight-2 userset
 		types = append(types,
 			m.TypeDef{Name: "group", Relations: []m.Relation{{Name: "r0", Rewrite: this(), Restr: userRestr}}},
@@ -374,6 +422,17 @@ func FamilyWorld(t *rapid.T, o Opts) World {
 				{Name: "r0", Rewrite: this(), Restr: []m.Restriction{user, {Type: "group", Rel: "r0"}}},
 				{Name: "r1", Rewrite: this(), Restr: []m.Restriction{user, {Type: "group", Rel: "r0"}}},
 				{Name: "r2", Rewrite: &m.Rewrite{Kind: op, Children: []*m.Rewrite{{Kind: m.Computed, Rel: "r0"}, {Kind: m.Computed, Rel: "r1"}}}}}})
+	case 6: // mutually recursive relations through a TTU (tuple cycles over parent are likely)
+		types = append(types, m.TypeDef{Name: "group", Relations: []m.Relation{
+			{Name: "parent", Rewrite: this(), Restr: []m.Restriction{{Type: "group"}}},
+			{Name: "r2", Rewrite: this(), Restr: userRestr},
+			{Name: "r0", Rewrite: &m.Rewrite{Kind: m.Union, Children: []*m.Rewrite{this(), {Kind: m.TTU, Tupleset: "parent", Rel: "r1"}, {Kind: m.Computed, Rel: "r2"}}}, Restr: []m.Restriction{user}},
+			{Name: "r1", Rewrite: &m.Rewrite{Kind: m.Union, Children: []*m.Rewrite{this(), {Kind: m.TTU, Tupleset: "parent", Rel: "r0"}}}, Restr: []m.Restriction{user}}}})
+	case 7: // mutually recursive relations through usersets
+		types = append(types, m.TypeDef{Name: "group", Relations: []m.Relation{
+			{Name: "r2", Rewrite: this(), Restr: userRestr},
+			{Name: "r0", Rewrite: &m.Rewrite{Kind: m.Union, Children: []*m.Rewrite{this(), {Kind: m.Computed, Rel: "r2"}}}, Restr: []m.Restriction{user, {Type: "group", Rel: "r1"}}},
+			{Name: "r1", Rewrite: this(), Restr: []m.Restriction{user, {Type: "group", Rel: "r0"}}}}})
 	default: // recursive userset reached through a TTU, with a second userset restriction
 		types = append(types,
 			m.TypeDef{Name: "group", Relations: []m.Relation{
